@@ -750,9 +750,12 @@ def enabled_in(tag, d, default_shaper):
     raise ValueError(e)
 
 
-def rand_table_multi(r, table, script_tags, lang_universe):
-    """abstract table in the format of rand_table; feature records are created per language system, so tags repeat"""
+def rand_table_multi(r, table, script_tags, lang_universe, small=False):
+    """abstract table in the format of rand_table; feature records are created per language system, so tags repeat.
+    small: two or three tags only ('vert' always among them) — short fonts for readable replays"""
     pool = [t for t in MULTI_TAGS[table] if t != "rqd0"]
+    if small:
+        pool = ["vert"] + r.sample([t for t in pool if t != "vert"], r.range(1, 2))
     recs = []                                      # tag of record i (creation order)
     by_tag = {}
     def new(tag):
@@ -773,7 +776,7 @@ def rand_table_multi(r, table, script_tags, lang_universe):
                 new(t)                                           # a record no language system lists
         if r.chance(1, 3):
             ls["feats"] = r.shuffle(ls["feats"])
-        if r.chance(1, 4):
+        if r.chance(1, 8 if small else 4):
             ls["req"] = new("rqd0")
         return ls
     scripts = []
@@ -782,7 +785,7 @@ def rand_table_multi(r, table, script_tags, lang_universe):
         if r.chance(3, 4):
             sc["dflt"] = langsys(tg("dflt"))
         for lt in lang_universe:
-            if r.chance(1, 2):
+            if r.chance(1, 3 if small else 2):
                 sc["langs"].append(langsys(lt))
         sc["langs"].sort(key=lambda l: l["tag"])
         scripts.append(sc)
@@ -800,7 +803,8 @@ def rand_table_multi(r, table, script_tags, lang_universe):
             ls["feats"] = [pos[i] for i in ls["feats"]]
             if ls["req"] is not None:
                 ls["req"] = pos[ls["req"]]
-    return {"scripts": scripts, "feats": [recs[i] for i in order], "sorted": sorted_list}
+    feats = [recs[i] for i in order]
+    return {"scripts": scripts, "feats": feats, "sorted": all(tg(a) <= tg(b) for a, b in zip(feats, feats[1:]))}
 
 
 def recipe_multi(gsub, gpos):
@@ -929,16 +933,22 @@ def multi_cases(ctx, r, shim):
     import fontbuild
     tl = tag_lists(shim, MULTI_SCRIPTS, MULTI_LANGS)
     cases = []
-    for n in range(ctx.budget(500, 12000)):
+    for n in range(ctx.budget(1600, 40000)):
         s = r.choice(MULTI_SCRIPTS); l = r.choice(MULTI_LANGS)
         st, lt = tl[(s, l)]
+        small = r.chance(1, 2)
         universe = list(dict.fromkeys(tl[(s, "-")][0] + [tg("DFLT"), tg("latn")]))
+        if small:
+            universe = universe[:1] + [tg("DFLT")]
         present = [t for t in universe if r.chance(1, 2)] or [r.choice(universe)]
         lang_universe = list(dict.fromkeys(lt + [tg("JAN "), tg("KOR "), tg("ZHS "), tg("AAA ")]))
-        gsub = rand_table_multi(r, 0, present, lang_universe)
-        gpos = rand_table_multi(r, 1, [t for t in universe if r.chance(1, 2)], lang_universe) if r.chance(1, 2) else None
+        if small:
+            lang_universe = lang_universe[:3]
+        gsub = rand_table_multi(r, 0, present, lang_universe, small)
+        gpos = (rand_table_multi(r, 1, [t for t in universe if r.chance(1, 2)], lang_universe, small)
+                if r.chance(1, 4 if small else 2) else None)
         if r.chance(1, 12):
-            gsub, gpos = None, rand_table_multi(r, 1, present, lang_universe)
+            gsub, gpos = None, rand_table_multi(r, 1, present, lang_universe, small)
         c = {"gsub": gsub, "gpos": gpos, "script": s, "lang": l, "st": st, "lt": lt, "kind": "multi",
              "dir": DIRS[n % 4]}
         c["hex"] = fontbuild.build(recipe_multi(gsub, gpos)).hex()
@@ -1036,6 +1046,7 @@ def search_resolve_shape(ctx, cases):
     dist = {}
     bad = 0
     nontriv = 0
+    failing = []
     def bump(k):
         dist[k] = dist.get(k, 0) + 1
     for c, p, o in zip(cases, plans, outs):
@@ -1056,18 +1067,20 @@ def search_resolve_shape(ctx, cases):
             nontriv += 1
         if diff:
             bad += 1
-            if bad <= 3:
-                what = ", ".join(f"{'GSUB' if k[0] == 0 else 'GPOS'} '{k[1]}': expected record {exp[k]}, applied {got[k] if isinstance(got, dict) else got}"
-                                 for k in diff if k != "malformed") or str(got)
-                ctx.violation(f"shape() does not apply the feature records of the selected language system: script {c['script']} "
-                              f"language {c['lang']} direction {c['dir']}: {what}",
-                              {"stage": "search", "stream": "resolve-shape", "font_hex": c["hex"], "abstract": c["abs"],
-                               "script": c["script"], "lang": c["lang"], "dir": c["dir"], "model_selection": p,
-                               "feature_list": {"gsub": c["gsub"]["feats"] if c["gsub"] else None,
-                                                "gpos": c["gpos"]["feats"] if c["gpos"] else None},
-                               "sorted": [c["gsub"]["sorted"] if c["gsub"] else None, c["gpos"]["sorted"] if c["gpos"] else None],
-                               "expected": show_multi(exp), "observed_records": show_multi(got), "differs": [list(k) if k != "malformed" else k for k in diff],
-                               "observed": o[1]})
+            failing.append((len(c["hex"]), len(failing), c, p, o, exp, got, diff))
+    # the smallest failing fonts are reported
+    for _, _, c, p, o, exp, got, diff in sorted(failing, key=lambda x: x[:2])[:3]:
+        what = ", ".join(f"{'GSUB' if k[0] == 0 else 'GPOS'} '{k[1]}': expected record {exp[k]}, applied {got[k] if isinstance(got, dict) else got}"
+                         for k in diff if k != "malformed") or str(got)
+        ctx.violation(f"shape() does not apply the feature records of the selected language system: script {c['script']} "
+                      f"language {c['lang']} direction {c['dir']}: {what}",
+                      {"stage": "search", "stream": "resolve-shape", "font_hex": c["hex"], "abstract": c["abs"],
+                       "script": c["script"], "lang": c["lang"], "dir": c["dir"], "model_selection": p,
+                       "feature_list": {"gsub": c["gsub"]["feats"] if c["gsub"] else None,
+                                        "gpos": c["gpos"]["feats"] if c["gpos"] else None},
+                       "sorted": [c["gsub"]["sorted"] if c["gsub"] else None, c["gpos"]["sorted"] if c["gpos"] else None],
+                       "expected": show_multi(exp), "observed_records": show_multi(got),
+                       "differs": [list(k) if k != "malformed" else k for k in diff], "observed": o[1]})
     ctx.note_search("resolve-shape", len(cases), nontriv, distribution=dist, mismatches=bad,
                     rule="synthetic fonts whose FeatureList holds several records per tag (one per language system, shared "
                          "records, two of one tag in one language system, records no language system lists; sorted by tag, "
@@ -1090,6 +1103,11 @@ def run(ctx):
         "hand-checked pairs of C18_wellknown",
         "Rust's str::find / starts_with / match_indices / binary_search_by are modelled (first match, non-overlapping "
         "matches, the rustc 1.95 loop), ttf-parser's record lists are abstract lists of records",
+        "feature-record resolution: Tag.planFeatures = C14's model of collect_feature_maps (Map.lean) over the records "
+        "Tag.lean selects; the feature list of the plan is the one of a shaper without features of its own "
+        "(Map.planBuilder), so under the other shapers the tagresolve stream compares only the tags every shaper leaves as "
+        "ot_shape.rs registers them; FeatureLists that are not sorted by tag are outside the global-search oracle of "
+        "resolve-shape (the crate binary searches them, HarfBuzz scans them)",
     ]
     ctx.regen()
     ctx.prove(MODULE)
@@ -1124,6 +1142,30 @@ def replay(ctx, rp):
         g = [x.split(":") for x in m[2:]]
         got = {"A": int(g[0][0]), "B": int(g[1][0]), "C": int(g[2][3]), "D": int(g[3][3])}
         return 0 if got == rp["expected"] else 1
+    if rp.get("stream") == "resolve-shape":
+        lang = "-" if rp["lang"] == "-" else hx(rp["lang"])
+        o = vlib.run_groups(shim, [[f"font f {rp['font_hex']}", f"shape f {rp['dir']} {rp['script']} {lang} 0 0 - - - {MULTI_TEXT}"]], nproc=1)[0]
+        fl = rp["feature_list"]
+        tb = [None if fl[k] is None else {"feats": fl[k]} for k in ("gsub", "gpos")]
+        got = observed_multi(o[1], tb[0], tb[1])
+        print("impl    :", o[1])
+        print("applied :", show_multi(got))
+        print("expected:", rp["expected"], "(selection by the model:", rp["model_selection"], ")")
+        if not isinstance(got, dict):
+            return 1
+        # the records named in `expected` and nothing else, except where the oracle does not decide ('?')
+        exp = {}
+        for item in rp["expected"].split():
+            k, v = item.split("=")
+            exp[k] = v
+        for (t, tag), v in got.items():
+            k = f"{'GSUB' if t == 0 else 'GPOS'}.{tag}"
+            e = exp.get(k)
+            if e == "?":
+                continue
+            if (e is None) != (v is None) or (e is not None and int(e) != v):
+                return 1
+        return 0
     if "request" in rp:
         a = vlib.run_lines(shim, [rp["request"]], nproc=1)[0]
         print("impl :", a)
